@@ -141,12 +141,17 @@ func incompleteReferences(r *rand.Rand, src string, max int) []incompleteRef {
 		eq, root0, root1 := m[0], m[4], m[5]
 		blanks := strings.Repeat(" ", 1+r.Intn(3))
 		val := src[root0:root1]
-		if r.Intn(4) == 0 {
-			val = pick(r, []string{"provider::", "provider::a::", "var.alpha."})
+		if r.Intn(3) == 0 {
+			// a namespaced function name being typed, also with a multi-byte character right behind it
+			val = pick(r, []string{"provider::", "provider::a::", "var.alpha.", "provider::a\u2026", "provider::a::b\u2192 # c", "provider::a::\u00a0x", "provider::a::b # \u00e9"})
 		}
 		s := src[:eq+1] + blanks + val + src[m[1]:]
 		v0 := eq + 1 + len(blanks)
-		out = append(out, incompleteRef{src: s, offsets: []int{eq + 1, eq + 2, v0, v0 + 1, v0 + len(val)}})
+		offs := []int{eq + 1, eq + 2}
+		for i := 0; i <= len(val); i++ {
+			offs = append(offs, v0+i)
+		}
+		out = append(out, incompleteRef{src: s, offsets: offs})
 	}
 	return out
 }
